@@ -50,6 +50,15 @@ type CallSpec struct { // "at call <callee>#k: requires e" / "hint e"
 	Hints   []*E
 	Matched bool
 	Bind    map[string]string // ghost name -> callee result name
+	Ghost   []GhostAssign     // ghost updates performed just before the call (same atomic step)
+	GhostAfter []GhostAssign  // ghost updates performed right after the call returns (same atomic step)
+}
+
+type GhostAssign struct {
+	Comp string
+	Idx  *E // nil: scalar component
+	Val  *E
+	Src  string
 }
 
 type Contract struct {
@@ -77,6 +86,7 @@ type Contract struct {
 	Inline    bool
 	ExitHints []*E
 	NoCall    []string             // callee names that must not be called (e.g. blocking operations)
+	Then      *Contract            // second phase of a blocking call (after the environment has run)
 	DynCallee map[string]*Contract // contracts assumed for calls through function-typed parameters
 	Bind      map[string]string    // (dyn callee) ghost name -> result name it records
 }
@@ -99,7 +109,7 @@ func newSpecSet() *SpecSet {
 var directiveKW = map[string]bool{"pure": true, "opaque": true, "axiom": true, "lemma": true, "func": true, "extern": true,
 	"requires": true, "ensures": true, "modifies": true, "loop": true, "use": true, "names": true,
 	"expect_obligations": true, "ghost": true, "at": true, "trusted": true, "property": true, "noreturn": true,
-	"inline": true, "hint": true, "exit": true, "bounded": true, "callee": true, "shared": true, "rely": true, "guar": true, "ginv": true, "nocall": true}
+	"inline": true, "hint": true, "exit": true, "bounded": true, "callee": true, "shared": true, "rely": true, "guar": true, "ginv": true, "nocall": true, "then": true}
 
 // readDirectives returns logical directive lines (continuations joined).
 func readDirectives(path string, prefixed bool) ([]string, []int, error) {
@@ -147,7 +157,7 @@ func readDirectives(path string, prefixed bool) ([]string, []int, error) {
 var reSpecFunc = regexp.MustCompile(`^(?:pure|opaque)\s+func\s+(\w+)\s*\(([^)]*)\)\s*([^=]*?)\s*(?:=\s*(.*))?$`)
 var reFuncHdr = regexp.MustCompile(`^(func|extern)\s+(\S+?)(?:\s*\(([^)]*)\)\s*(?:\(([^)]*)\))?)?\s*$`)
 var reLoop = regexp.MustCompile(`^loop\s+(\d+)\s*:\s*(invariant|decreases|hint)\s+(.*)$`)
-var reAtCall = regexp.MustCompile(`^at\s+call\s+(\S+?)#(\d+)\s*:\s*(requires|hint|bind)\s+(.*)$`)
+var reAtCall = regexp.MustCompile(`^at\s+call\s+(\S+?)#(\d+)\s*:\s*(requires|hint|bind|ghost_after|ghost)\s+(.*)$`)
 
 func parseParams(s string) []QVar {
 	// "d []byte, p int" or "a, b int"; names only allowed ("s, sep")
@@ -457,6 +467,29 @@ func (ss *SpecSet) loadSpecFile(path string, prefixed bool, pkgDir string) error
 					cur.DynCallee = map[string]*Contract{}
 				}
 				cur.DynCallee[strings.TrimSpace(hdr)] = dc
+			case strings.HasPrefix(d, "then "):
+				// second phase of a blocking call: then modifies ... | then ensures e
+				if cur.Then == nil {
+					cur.Then = &Contract{Key: cur.Key + "/then", Extern: cur.Extern, Loops: map[int]*LoopSpec{}, ModSet: true}
+				}
+				rest := strings.TrimSpace(d[5:])
+				switch {
+				case strings.HasPrefix(rest, "modifies"):
+					for _, k := range strings.Split(strings.TrimSpace(rest[8:]), ",") {
+						if k = strings.TrimSpace(k); k != "" && k != "nothing" {
+							cur.Then.Modifies = append(cur.Then.Modifies, k)
+						}
+					}
+				case strings.HasPrefix(rest, "ensures "):
+					e, err := mustExpr(i, rest[8:])
+					if err != nil {
+						return err
+					}
+					cur.Then.Ensures = append(cur.Then.Ensures, e)
+					cur.Then.EnsSrc = append(cur.Then.EnsSrc, rest[8:])
+				default:
+					return fail(i, "then modifies|ensures ...")
+				}
 			case strings.HasPrefix(d, "nocall "):
 				for _, k := range strings.Split(d[7:], ",") {
 					if k = strings.TrimSpace(k); k != "" {
@@ -508,6 +541,42 @@ func (ss *SpecSet) loadSpecFile(path string, prefixed bool, pkgDir string) error
 				if cs == nil {
 					cs = &CallSpec{Callee: m[1], K: k}
 					cur.Calls = append(cur.Calls, cs)
+				}
+				if m[3] == "ghost" || m[3] == "ghost_after" {
+					// ghost comp[idx] = expr ; comp = expr   (several separated by ';')
+					for _, as := range strings.Split(m[4], ";") {
+						as = strings.TrimSpace(as)
+						if as == "" {
+							continue
+						}
+						k := strings.Index(as, " = ")
+						if k < 0 {
+							return fail(i, "ghost assignment needs ` = `")
+						}
+						lhs, rhs := strings.TrimSpace(as[:k]), strings.TrimSpace(as[k+3:])
+						ga := GhostAssign{Src: as}
+						if b := strings.Index(lhs, "["); b >= 0 && strings.HasSuffix(lhs, "]") {
+							ga.Comp = lhs[:b]
+							ie, err := mustExpr(i, lhs[b+1:len(lhs)-1])
+							if err != nil {
+								return err
+							}
+							ga.Idx = ie
+						} else {
+							ga.Comp = lhs
+						}
+						ve, err := mustExpr(i, rhs)
+						if err != nil {
+							return err
+						}
+						ga.Val = ve
+						if m[3] == "ghost_after" {
+							cs.GhostAfter = append(cs.GhostAfter, ga)
+						} else {
+							cs.Ghost = append(cs.Ghost, ga)
+						}
+					}
+					continue
 				}
 				if m[3] == "bind" {
 					if cs.Bind == nil {
